@@ -47,7 +47,7 @@ COMPONENTS_STUBBED = [
     "module time -> virtual clock",
     "multiprocessing.cpu_count -> constant per run",
     "tqdm progress bars disabled; uuid4 and temp names seeded",
-    "(fidelity cross-check only, outside digests and verdicts: 1 run in 16 quick / 6 thorough repeats the subject through the real multiprocessing.Pool)",
+    "(fidelity cross-check only, outside digests and verdicts: in the thorough tier 1 run in 8 repeats the subject through the real multiprocessing.Pool)",
 ]
 ASSUMPTIONS = [
     "SimPool delivers every submitted task's result exactly once in some order, like imap_unordered without worker death",
@@ -308,10 +308,17 @@ def run_one(ctx: Any, seed: int, tier: str, replay: Optional[dict] = None) -> di
             if sc["fault"] == "read_err":
                 knobs["worker_plan"] = sc["plan"]
             n = fresh(zb, "sub", sc["subject_seed"], knobs, tape=tape)
+            if backend == "real":
+                n.sock.settimeout(180)  # the real pool is not ours to schedule: never wait for it for ever
             try:
                 out = execute(n, sc, world, sc["perm"], sc["processes"])
                 pool = dict(n.pool)
                 fired = dict(n.fired)
+            except (TimeoutError, OSError):
+                if backend != "real":
+                    raise
+                n.kill()
+                raise TimeoutError("real pool run exceeded 180 s")
             finally:
                 t = n.close()
             return out, pool, fired, t, seams.snapshot_tree(root)
@@ -357,11 +364,16 @@ def run_one(ctx: Any, seed: int, tier: str, replay: Optional[dict] = None) -> di
         # ---- SimPool fidelity cross-check: the same subject through the REAL multiprocessing.Pool ----
         # (OS-scheduled, hence outside the digest and never a verdict: a disagreement here that SimPool
         # did not show means the stand-in misses something and is reported as a harness error)
-        fidelity_every = {"quick": 16, "thorough": 6}.get(tier, 16)
-        if not replay and not msg and sc["fault"] == "none" and seed % fidelity_every == 0 and os.environ.get("VSIM_NO_REALPOOL") != "1":
+        # (thorough tier only: 1 run in 8; VSIM_REALPOOL=1 forces it on in any tier, =0 turns it off)
+        fid = os.environ.get("VSIM_REALPOOL", "")
+        fidelity_on = fid == "1" or (fid != "0" and tier == "thorough" and seed % 8 == 0)
+        if not replay and not msg and sc["fault"] == "none" and fidelity_on:
             try:
                 r_out, _, _, _, r_tree = run_subject("real", None)
                 r_msg = compare(ref_c, canon_outcome(r_out, sc), tree_ref, r_tree, False, None, initial)
+            except TimeoutError:
+                r_msg = None
+                probes["real_pool_timeouts"] += 1
             except Exception as e:  # the real pool is not under our control
                 r_msg = "real-pool run failed: %r" % (e,)
             probes["real_pool_crosschecks"] += 1
